@@ -1,2 +1,183 @@
+"""Binding the picture oracles (DESIGN.md section 3.1). Run at the start of every picture-based
+check; a failure is a broken harness (exit 2), never a verdict about the repository.
+ (a) svg_eval(print(scene)) == scene-model picture           (evaluator agrees with the generator)
+ (b) svg_eval agrees with resvg on flat pixels                (evaluator agrees with an independent renderer)
+ (c) the COLR evaluator's transform matrices agree with fontTools' Paint.getTransform
+ (d) hand-computed colours of four tiny COLR graphs
+"""
+import io
+import os
+import shutil
+import subprocess
+from pathlib import Path
+
+from vmc.core import pool
+from vmc.core.report import HarnessError
+
+FG = (0.2, 0.9, 0.4, 1.0)
+SCENE_DIMS = ("outline", "stack", "place", "donor_paint", "copy_paint", "lin_vec", "lin_gt", "lin_spread", "lin_stops",
+              "rad_geom", "rad_gt", "rad_spread", "rad_stops", "grp", "vb_origin", "vb_size", "vb_aspect", "where")
+
+
+def _scene_cases():
+    from vmc.gen import scenes
+
+    out = [{}]
+    for k in SCENE_DIMS:
+        for v in scenes.DIMS[k][1:]:
+            d = {k: v}
+            if scenes.relevant(d):
+                out.append(d)
+    return out
+
+
+def _check_scene(dev):
+    """(a) + (b) for one scene"""
+    from PIL import Image
+    from vmc.core import lattice
+    from vmc.gen import scenes
+    from vmc.oracles.svg_eval import SvgPicture
+    from vmc.oracles import scene as sc
+
+    a = lattice.full(scenes.DIMS, dev)
+    glyphs, _ = scenes.mk(a)
+    problems = []
+    n_a = n_b = 0
+    uses_fr = a["rad_geom"] == "fr" or a["copy_paint"] == "rad_focal_fr"
+    for gi, g in enumerate(glyphs):
+        for text, label in ((g.svg(), "picosvg"), (sc.raw_svg(g), "raw")):
+            pic = SvgPicture(text, FG)
+            x, y, w, h = g.vb
+            G = 18
+            for i in range(G):
+                for j in range(G):
+                    q = (x + w * (i + 0.37) / G, y + h * (j + 0.61) / G)
+                    r1, r2 = g.at_vb(q, FG), pic.at_doc(q)
+                    n_a += 1
+                    if max(abs(u - v) for u, v in zip(r1, r2)) > 1e-6:
+                        problems.append(f"(a) {dev} glyph {gi} {label} at {q}: scene {r1} vs svg_eval {r2}")
+                        break
+        if uses_fr or not g.leaves():
+            continue  # resvg 0.44 ignores the SVG2 focal radius fr (measured)
+        # (b) resvg
+        tmp = Path(os.environ.get("VERIF_SCRATCH", "/var/tmp")) / f"selftest-{os.getpid()}"
+        tmp.mkdir(parents=True, exist_ok=True)
+        try:
+            import re
+
+            # resvg knows neither the text foreground colour nor OT-SVG palette variables: hand it the
+            # marker colour and the fallback colour that the OpenType spec defines for var(--colorN, c)
+            text = g.svg().replace("currentColor", "#33E666")
+            text = re.sub(r"var\(--color\d+,\s*([^)]+)\)", r"\1", text)
+            (tmp / "s.svg").write_text(text)
+            W = 240
+            r = subprocess.run(["resvg", "-w", str(W), str(tmp / "s.svg"), str(tmp / "s.png")], capture_output=True,
+                               env=dict(os.environ, PATH="/venv/bin:" + os.environ.get("PATH", "")))
+            if r.returncode != 0:
+                problems.append(f"(b) resvg failed on {dev}: {r.stderr[-100:]}")
+                continue
+            im = Image.open(tmp / "s.png").convert("RGBA")
+            px = im.load()
+            Wp, Hp = im.size
+            pic = SvgPicture(g.svg(), FG)
+            x, y, w, h = g.vb
+            step = 6
+            for i in range(3, Wp - 3, step):
+                for j in range(3, Hp - 3, step):
+                    nb = [px[i + di, j + dj] for di in (-2, 0, 2) for dj in (-2, 0, 2)]
+                    if max(max(c[k] for c in nb) - min(c[k] for c in nb) for k in range(4)) >= 40:
+                        continue
+                    q = (x + w * (i + 0.5) / Wp, y + h * (j + 0.5) / Hp)
+                    c = pic.at_doc(q)  # premultiplied
+                    rr, gg, bb, aa = px[i, j]
+                    got = (rr / 255 * aa / 255, gg / 255 * aa / 255, bb / 255 * aa / 255, aa / 255)
+                    n_b += 1
+                    if max(abs(u - v) for u, v in zip(c, got)) > 14 / 255:
+                        # tolerate probes whose own neighbourhood is not flat in the evaluator (thin features)
+                        around = [pic.at_doc((q[0] + dx * w / Wp, q[1] + dy * h / Hp)) for dx in (-2, 2) for dy in (-2, 2)]
+                        if max(max(abs(u - v) for u, v in zip(c, o)) for o in around) > 12 / 255:
+                            continue
+                        problems.append(f"(b) {dev} glyph {gi} pixel ({i},{j}): svg_eval {tuple(round(v, 3) for v in c)} vs resvg {tuple(round(v, 3) for v in got)}")
+                        break
+        finally:
+            shutil.rmtree(tmp, ignore_errors=True)
+    return [{"status": "ok" if not problems else "selftest-failed", "clause": "selftest", "detail": "; ".join(problems[:3]), "n": (n_a, n_b)}]
+
+
+def _matrices():
+    """(c): own spec formulas vs fontTools' Paint.getTransform"""
+    from fontTools.ttLib.tables import otTables as ot
+    from vmc.oracles.colr_eval import ColrPicture
+    from vmc.props import c13, c16
+
+    problems = []
+    PF = ot.PaintFormat
+    for name in c13.WRAPPERS:
+        d = c13.wrap(name, {"Format": PF.PaintSolid, "PaletteIndex": 0, "Alpha": 1.0})
+        font = c16._font_for(d)
+        pic = ColrPicture(font)
+        p = pic.base_paint("g")
+        mine = pic.xform(p)
+        theirs = tuple(p.getTransform())
+        if any(abs(a - b) > 1e-9 for a, b in zip(mine, theirs)):
+            problems.append(f"(c) {name}: oracle {mine} vs fontTools {theirs}")
+    return problems
+
+
+def _hand_computed():
+    """(d) four tiny COLR graphs with colours computed by hand"""
+    from fontTools.ttLib.tables.otTables import PaintFormat as PF
+    from vmc.oracles.colr_eval import ColrPicture
+    from vmc.props import c13
+
+    solid = lambda i, a=1.0: {"Format": PF.PaintSolid, "PaletteIndex": i, "Alpha": a}
+    glyph = lambda g, p: {"Format": PF.PaintGlyph, "Glyph": g, "Paint": p}
+    problems = []
+
+    def expect(colr, p, want, label):
+        font = c13.make_font(colr)
+        got = ColrPicture(font, FG).at("base", p)
+        if max(abs(a - b) for a, b in zip(got, want)) > 2e-3:
+            problems.append(f"(d) {label}: at {p} got {tuple(round(v, 4) for v in got)}, by hand {want}")
+
+    # palette: 0 red, 1 blue, 2 green(0,.5,0), 3 yellow, 4 black ; L covers (150,150), T covers (500,300) but not (150,150)
+    expect({"base": glyph("L", solid(0))}, (150, 150), (1, 0, 0, 1), "solid inside")
+    expect({"base": glyph("L", solid(0))}, (400, 400), (0, 0, 0, 0), "solid outside (L's notch)")
+    # blue at alpha .5 over red: premultiplied (0.5*0 + 0.5*1, 0, 0.5, 1)
+    expect({"base": {"Format": PF.PaintColrLayers, "Layers": [glyph("L", solid(0)), glyph("L", solid(1, 0.5))]}}, (150, 150), (0.5, 0, 0.5, 1.0), "alpha over")
+    # linear gradient red->blue from x=100 to x=500 (p2 perpendicular): at x=300 halfway
+    lin = {"Format": PF.PaintLinearGradient, "ColorLine": {"ColorStop": [(0, 0), (1, 1)], "Extend": "pad"}, "x0": 100, "y0": 0, "x1": 500, "y1": 0, "x2": 100, "y2": 100}
+    expect({"base": glyph("L", lin)}, (300, 200), (0.5, 0, 0.5, 1.0), "linear midpoint")
+    # group opacity: (red over nothing) SRC_IN black@0.25 -> red * 0.25
+    grp = {"Format": PF.PaintComposite, "CompositeMode": "src_in", "SourcePaint": glyph("L", solid(0)), "BackdropPaint": solid(4, 0.25)}
+    expect({"base": grp}, (150, 150), (0.25, 0, 0, 0.25), "SRC_IN group alpha")
+    # translate: L moved by (120,-80): (150,150) no longer covered from the un-moved notch side; (250,50) is
+    expect({"base": c13.wrap("Translate", glyph("L", solid(0)))}, (250, 50), (1, 0, 0, 1), "translate")
+    return problems
+
+
+_DONE = False
+
+
 def run(report):
-    pass
+    global _DONE
+    if _DONE:
+        return
+    from vmc.drive import inproc
+
+    inproc.init()
+    cases = _scene_cases()
+    res = pool.run_cases(_check_scene, cases, timeout=300, jobs=None, chunksize=2)
+    na = nb = 0
+    for c, vs in zip(cases, res):
+        v = vs[0]
+        if v["status"] != "ok":
+            raise HarnessError(f"oracle self-test failed: {v.get('detail')}")
+        na += v["n"][0]
+        nb += v["n"][1]
+    problems = _matrices() + _hand_computed()
+    if problems:
+        raise HarnessError("oracle self-test failed: " + "; ".join(problems[:3]))
+    report.extra["oracle_selftest"] = {"scenes": len(cases), "scene_vs_svg_eval_probes": na, "svg_eval_vs_resvg_pixels": nb,
+                                       "transform_paints_vs_fontTools": 10, "hand_computed_colr_cases": 6}
+    _DONE = True
